@@ -26,7 +26,7 @@ var okResp = func() []byte { b, _ := hio.Marshal("ok"); return append(append([]b
 func TestCheck(t *testing.T) {
 	r := h.Start(t, "C17")
 	defer r.Finish()
-	r.Meta("rule", "under virtual time. Concurrent limiter: max in {1,2,5} x limiter timeout {none, 1ms, 20ms, 1s} x seeded arrival scripts of 1..64 requests (arrival instants on a 1 ms grid so that timeouts, arrivals and releases coincide), service times 0..30 ms, outcomes return/error/panic; monitors: in-flight counter inside the next handler (maximum must be <= max), exact return instant of timed-out waiters, ConcurrentRequests()==0 at quiescence, and a fresh batch of max requests released at one instant must all be inside simultaneously afterwards (not wedged, no permit lost or leaked). Rate limiter: rate in {1,10,1000}/s x maxPermits {inf,0,1,10} x timeout {0, 50ms, exact boundaries +-1ns} x token sizes (invoke path 1 token, IO path len(request)) x sequential arrival scripts: every window [i,j] of admissions is checked against burst + rate*elapsed + slack, every rejection against a reference bucket charged with admitted requests only, every wait against the timeout; concurrent: same-instant parallel bursts against a full bucket. distinct_nontrivial = distinct (limiter configuration, script) pairs with at least one contended or delayed request")
+	r.Meta("rule", "under virtual time. Concurrent limiter: max in {1,2,5} x limiter timeout {none, 1ms, 20ms, 1s} x seeded arrival scripts of 1..64 requests (arrival instants on a 1 ms grid so that timeouts, arrivals and releases coincide), service times 0..30 ms, outcomes return/error/panic; monitors: in-flight counter inside the next handler (maximum must be <= max), exact return instant of timed-out waiters, ConcurrentRequests()==0 at quiescence, and a fresh batch of max requests released at one instant must all be inside simultaneously afterwards (not wedged, no permit lost or leaked). Rate limiter: rate in {1,10,1000}/s x maxPermits {inf,0,1,10} x timeout {0, 50ms, exact boundaries +-1ns} x token sizes (invoke path 1 token, IO path len(request)) x sequential arrival scripts: every window [i,j] of admissions is checked against burst + rate*elapsed + slack, every rejection against a reference bucket charged with admitted requests only, every wait against the timeout; concurrent: same-instant parallel bursts against a full bucket. distinct_nontrivial = distinct (limiter configuration, script) pairs with at least one contended or delayed request Added: callers that cancel their own context (deadline and explicit cancellation) while queued at the concurrent limiter; maxPermits 0.")
 	r.Meta("assumptions", []string{
 		"rate window slack = 2*kmax tokens (pay-later admission: a request is admitted when the previous debt is paid, its own tokens are charged afterwards; cap applied after subtraction)",
 		"a rejection is reported only if even a strict token bucket (admitted requests only) would have had the tokens within the timeout: tokens - available <= timeout*rate",
